@@ -233,6 +233,8 @@ func RunSeq(sc SeqScenario) (evs []Ev, inconclusive string) {
 	}
 	var delivered []map[string]any // engine-owned result maps as handed to the sink
 	var snaps []string
+	var batches [][]map[string]any // engine-owned batch slices as handed to the sink
+	var batchSnaps []string
 	project := func(rs []map[string]any) []any {
 		rows := make([]any, 0, len(rs))
 		for _, r := range rs {
@@ -258,6 +260,10 @@ func RunSeq(sc SeqScenario) (evs []Ev, inconclusive string) {
 			b, _ := json.Marshal(AbsRow(r))
 			snaps = append(snaps, string(b))
 		}
+		// the batch itself (the slice the sink was handed): a sink that keeps it must find the same rows in it later
+		batches = append(batches, rs)
+		bb, _ := json.Marshal(rows)
+		batchSnaps = append(batchSnaps, string(bb))
 		in.events = append(in.events, Ev{"tr": sc.Tr, "e": "out", "rows": rows})
 		in.mu.Unlock()
 	})
@@ -541,6 +547,12 @@ func RunSeq(sc SeqScenario) (evs []Ev, inconclusive string) {
 	for i, r := range delivered {
 		b, _ := json.Marshal(AbsRow(r))
 		if string(b) != snaps[i] {
+			nm++
+		}
+	}
+	for i, rs := range batches {
+		bb, _ := json.Marshal(project(rs))
+		if string(bb) != batchSnaps[i] {
 			nm++
 		}
 	}
